@@ -115,13 +115,13 @@ def storeSlice (sbits : Bits) (srefs : List R) : BOp R := fun b =>
   if b.refs.length + srefs.length > 4 then (b, false)
   else (extend sbits ⊳ storeRefs srefs) b
 
-/-- `store_address` (after fixes F9, zero-length extern). `ExternalAddress.to_cell()` builds a separate
+/-- `store_address` (after fixes F9, zero-length extern: `if self.len or self.external_address`). `ExternalAddress.to_cell()` builds a separate
     cell first (which can itself overflow), then `store_cell`. -/
 def storeAddress (a : Addr) : BOp R :=
   match a with
   | .none => storeBits [false, false]
   | .ext len val =>
-    let inner : BOp R := storeBits [false, true] ⊳ storeUint len 9 ⊳ (if len = 0 then skip else storeUint val len)
+    let inner : BOp R := storeBits [false, true] ⊳ storeUint len 9 ⊳ (if len = 0 ∧ val = 0 then skip else storeUint val len)
     fun b =>
       let r := inner Builder.empty
       if r.2 then storeCell r.1.bits [] b else (b, false)
@@ -152,6 +152,16 @@ def storeSnakeFuel (mk : Bits → List R → Option R) : Nat → Bytes → BOp R
 
 def storeSnake (mk : Bits → List R → Option R) (value : Bytes) : BOp R :=
   storeSnakeFuel mk (value.length + 2) value
+
+/-- `store_dict(dict_cell | None)` = `store_maybe_ref` -/
+def storeDict (r : Option R) : BOp R := storeMaybeRef r
+
+/-- `store_string(value)`; the argument is `value.encode()`.  `assert len(...) <= 127` then `frombytes`. -/
+def storeString (bs : Bytes) : BOp R := if bs.length > 127 then fail else storeBytes bs
+
+/-- `store_snake_string(value, need_prefix)`; the argument is `value.encode()` -/
+def storeSnakeString (mk : Bits → List R → Option R) (bs : Bytes) (needPrefix : Bool) : BOp R :=
+  storeSnake mk (if needPrefix then 0 :: bs else bs)
 
 end BOp
 
@@ -349,6 +359,133 @@ def loadSnakeFuel (view : R → Bits × List R) : Nat → SOp R Bytes
           | (_, none) => (s2, none)
           | (_, some tl) => (s2, some (hd ++ tl))
 
+/-- `load_snake_string` = `load_snake_bytes().decode()` (strings are modelled as their UTF-8 bytes) -/
+def loadSnakeStringFuel (view : R → Bits × List R) (fuel : Nat) : SOp R Bytes := loadSnakeFuel view fuel
+
+/-- `load_dict(key_length)` / `preload_dict` at the cell level: the `Maybe ^Cell` part (the parse of the
+    referenced dictionary cell is C09's subject). -/
+def loadDict : SOp R (Option R) := do
+  let b ← loadBit
+  if b then do let r ← loadRef; return some r else return none
+
+def preloadDict : SOp R (Option R) := do
+  let b ← preloadBit
+  if b then do let r ← preloadRef; return some r else return none
+
+/-- `load_string(byte_length)` (`0` = all whole bytes that remain); result = the bytes before `.decode()` -/
+def loadString (n : Nat) : SOp R Bytes := fun s => loadBytes (if n = 0 then s.bits.length / 8 else n) s
+
+def preloadString (n : Nat) : SOp R Bytes := fun s => preloadBytes (if n = 0 then s.bits.length / 8 else n) s
+
+def map (f : α → β) (op : SOp R α) : SOp R β := fun s => let r := op s; (r.1, r.2.map f)
+
 end SOp
+
+/-! ### Typed values: one constructor per typed `store_*` operation that has a `load_*` counterpart -/
+
+inductive TVal (R : Type) where
+  | uint (n : Nat) (v : Int)          -- store_uint(v, n)
+  | int (n : Nat) (v : Int)           -- store_int(v, n)
+  | varUint (k : Nat) (v : Int)       -- store_var_uint(v, k)
+  | varInt (k : Nat) (v : Int)        -- store_var_int(v, k)
+  | coins (v : Int)                   -- store_coins(v)
+  | bit (b : Bool)                    -- store_bit(b)
+  | bits (bs : Bits)                  -- store_bits(bs)
+  | bytes (bs : Bytes)                -- store_bytes(bs)
+  | string (bs : Bytes)               -- store_string(s), bs = s.encode()
+  | ref (r : R)                       -- store_ref(r)
+  | maybeRef (r : Option R)           -- store_maybe_ref(r)
+  | dict (r : Option R)               -- store_dict(r)
+  | addr (a : Addr)                   -- store_address(a)
+
+/-- what the reader has to know to read a value back (the arguments of the `load_*` call) -/
+inductive Kind where
+  | uint (n : Nat) | int (n : Nat) | varUint (k : Nat) | varInt (k : Nat) | coins | bit
+  | bits (n : Nat) | bytes (n : Nat) | string (n : Nat) | ref | maybeRef | dict | addr
+
+namespace TVal
+variable {R : Type}
+
+def store : TVal R → BOp R
+  | .uint n v => BOp.storeUint v n
+  | .int n v => BOp.storeInt v n
+  | .varUint k v => BOp.storeVarUint v k
+  | .varInt k v => BOp.storeVarInt v k
+  | .coins v => BOp.storeCoins v
+  | .bit b => BOp.storeBit b
+  | .bits bs => BOp.storeBits bs
+  | .bytes bs => BOp.storeBytes bs
+  | .string bs => BOp.storeString bs
+  | .ref r => BOp.storeRef r
+  | .maybeRef r => BOp.storeMaybeRef r
+  | .dict r => BOp.storeDict r
+  | .addr a => BOp.storeAddress a
+
+def kind : TVal R → Kind
+  | .uint n _ => .uint n
+  | .int n _ => .int n
+  | .varUint k _ => .varUint k
+  | .varInt k _ => .varInt k
+  | .coins _ => .coins
+  | .bit _ => .bit
+  | .bits bs => .bits bs.length
+  | .bytes bs => .bytes bs.length
+  | .string bs => .string bs.length
+  | .ref _ => .ref
+  | .maybeRef _ => .maybeRef
+  | .dict _ => .dict
+  | .addr _ => .addr
+
+end TVal
+
+namespace Kind
+variable {R : Type}
+
+/-- the consuming read `load_X(args)` -/
+def load : Kind → SOp R (TVal R)
+  | .uint n => (SOp.loadUint n).map (TVal.uint n)
+  | .int n => (SOp.loadInt n).map (TVal.int n)
+  | .varUint k => (SOp.loadVarUint k).map (TVal.varUint k)
+  | .varInt k => (SOp.loadVarInt k).map (TVal.varInt k)
+  | .coins => SOp.loadCoins.map TVal.coins
+  | .bit => SOp.loadBit.map TVal.bit
+  | .bits n => (SOp.loadBits n).map TVal.bits
+  | .bytes n => (SOp.loadBytes n).map TVal.bytes
+  | .string n => (SOp.loadString n).map TVal.string
+  | .ref => SOp.loadRef.map TVal.ref
+  | .maybeRef => SOp.loadMaybeRef.map TVal.maybeRef
+  | .dict => SOp.loadDict.map TVal.dict
+  | .addr => SOp.loadAddress.map TVal.addr
+
+/-- the non-consuming peek `preload_X(args)` -/
+def preload : Kind → SOp R (TVal R)
+  | .uint n => (SOp.preloadUint n).map (TVal.uint n)
+  | .int n => (SOp.preloadInt n).map (TVal.int n)
+  | .varUint k => (SOp.preloadVarUint k).map (TVal.varUint k)
+  | .varInt k => (SOp.preloadVarInt k).map (TVal.varInt k)
+  | .coins => SOp.preloadCoins.map TVal.coins
+  | .bit => SOp.preloadBit.map TVal.bit
+  | .bits n => (SOp.peekBits n).map TVal.bits
+  | .bytes n => (SOp.preloadBytes n).map TVal.bytes
+  | .string n => (SOp.preloadString n).map TVal.string
+  | .ref => SOp.preloadRef.map TVal.ref
+  | .maybeRef => SOp.preloadMaybeRef.map TVal.maybeRef
+  | .dict => SOp.preloadDict.map TVal.dict
+  | .addr => SOp.preloadAddress.map TVal.addr
+
+end Kind
+
+/-- every builder operation (typed values + composite stores), for operation histories -/
+inductive Op (R : Type) where
+  | val (tv : TVal R)
+  | cell (bits : Bits) (refs : List R)           -- store_cell(c)
+  | slice (bits : Bits) (refs : List R)          -- store_slice(s): remaining bits / refs of s
+  | snake (mk : Bits → List R → Option R) (bs : Bytes)   -- store_snake_bytes / store_snake_string
+
+def Op.run {R : Type} : Op R → BOp R
+  | .val tv => tv.store
+  | .cell b r => BOp.storeCell b r
+  | .slice b r => BOp.storeSlice b r
+  | .snake mk bs => BOp.storeSnake mk bs
 
 end TonVerif.Model
